@@ -7,6 +7,15 @@ CHECKS = {
  "C09": ("exploration", "E1-flat", "bounded exhaustive enumeration of expression trees against a reference folder",
          "Every tree of the stated grammar (operators x boundary operand pairs; all trees to depth 3, wrapped and unwrapped) is folded by the real constant folder and compared structurally with a reference folder written on the harness's own tree type with independent 256-bit arithmetic; idempotence, size bookkeeping and totality are checked on each. Complete within the grammar, which contains every one-operator mistake (wrong constructor, wrong operand order, wrong boundary rule).",
          "trusts ref_u256 (cross-checked against Python big integers at setup) and the crate's PartialEq on values; says nothing about operands outside the boundary set", "3/C09"),
+ "C16": ("exploration", "E1-flat", "complete enumeration of the property's finite evidence domain (all ordered pairs and triples) on the real merge",
+         "The property's own domain (41 pieces of evidence) is finite: all 1 681 ordered pairs and all 68 921 ordered triples are pushed through the real unification::merge and compared after normalisation. This decides the property on its whole stated domain. The non-associative triples of the pinned tree (dynamic bytes / dynamic arrays absorbing mutually conflicting words) are listed one by one as known findings; any other triple is a violation.",
+         "normalisation (conflicts collapsed, variables up to the emitted equalities) is the statement's own equivalence; packed encodings are outside the stated domain", "3/C16"),
+ "C19": ("model_checking", "E3-history", "explicit-state model checking (stateright BFS, iterative deepening) of all operation histories of the real structures against reference models",
+         "All histories up to depth 6 (7 thorough) of the real DisjointSet over a 4-element universe with a non-idempotent data monoid, and up to depth 6 (8) of the real VectorMap, are explored with state matching; every transition runs the real method and a naive reference model in lock-step and every state is compared through all observers, twice. Exhaustive for the property's stated bound (length 6, 4 elements).",
+         "state key includes the real object's internal shape (Debug) so merged states have equal futures; reference models are a partition with multisets and a BTreeMap", "3/C19"),
+ "C20": ("exploration", "E1-flat", "bounded exhaustive enumeration of layout entries through the real serde round trip",
+         "Every AbiType tree to depth 3 over every variant (quick: depth-3 with one leaf component) plus unary chains to depth 6, and every (boundary index, offset 0..255) pair for 8 representative types, is serialised and parsed back by the real code; equality, byte-identical re-serialisation and an independent reading of the 64-digit index are checked.",
+         "serde_json trusted; indices outside the boundary set not reached", "3/C20"),
  "C10": ("exploration", "E1-flat", "bounded exhaustive enumeration of byte strings against a reference disassembler",
          "All byte strings of length 1-2 (3 thorough), all strings <= 5 (6) over 16 opcode-class representatives, every opcode x every truncation of its immediate, every PUSHn over JUMPDEST/PUSH immediates and every (PUSH-cutting) prefix of every shipped contract are disassembled by the real code and compared offset by offset with a 20-line reference disassembler.",
          "trusts the reference disassembler and the Shanghai opcode table; long inputs only through the shipped corpus", "3/C10"),
